@@ -31,6 +31,23 @@ def _check_module(S, pre, m, info, EA=None):
     S.ensure(pre + ".area_of_rectangles", seq(m.area_rectangles, sum(rect_area(r) for r in rs)) if rs else True)
 
 
+@contract(P, functions=[N + "yaml_read_netlist.parse_yaml_rectangles", "frame.geometry.geometry.parse_yaml_rectangle"],
+          params=[dict(kind=k, region=r) for k in ("soft", "hard", "fixed") for r in (None, "LUT") if not (r and k != "soft")])
+def single_rectangle_in_flat_form(S, kind, region):
+    """added after seed C05-13: ONE rectangle may be written flat, `rectangles: [x, y, w, h]` or `[x, y, w, h, region]`, instead of as a
+    list of one list; the module it describes is the same"""
+    r = sym_rect(S, "r", region)
+    nested = (soft_module(S, "m", "one_region" if region else "scalar", False) if kind == "soft" else {"fixed": True} if kind == "fixed" else {"hard": True})
+    nested["rectangles"] = [list(r)]
+    flat = dict(nested, rectangles=list(r))
+    out, E, EA = _load(S, {"Modules": {"M": flat}})
+    S.ensure("flat.loads", out.ok)
+    if not out.ok:
+        return
+    _check_module(S, "flat", out.value.modules[0], nested)
+    S.ensure("flat.netlist_rectangles", out.value.num_rectangles == 1 and len(out.value.fixed_rectangles()) == (1 if kind == "fixed" else 0))
+
+
 SOFT = [dict(area=a, center=c, ar=r, nrect=n) for a in ("scalar", "ground_dict", "one_region", "two_regions")
         for c in (True, False) for r in (None, "scalar", "pair") for n in (0, 1, 2) if (c or n or True)]
 
